@@ -782,3 +782,155 @@ def provider_cyclic(tier="quick", root=None):
         P.REPO = old_repo
         P._SRC_CACHE.clear()
     return obs
+
+
+# ======================================================================================================
+# provider 4 (e2, sympy): exponent bookkeeping of tnag/core.py::tensor_network_ag_sum (behind a + b, a - b, +=, -=,
+# add_MPS, add_MPO).  The REAL FunctionDef is compiled unchanged and run on recording stand-ins whose stored exponents
+# are sympy real symbols (and, for the native float path, numbers).  A network denotes 10^e * prod_s T_s; the direct
+# sum of the site tensors denotes prod A_s + prod B'_s, so with f = (prod B'_s) / (prod B_s) the result denotes
+# 10^er * (A + f B).  Decided for ALL exponents, in the log domain:
+#      er == ea     and     f == sign * 10^(eb - ea)   (log10 |f| == eb - ea, sign = -1 iff negate)
+# i.e. 10^er * (A + f B) == 10^ea A +/- 10^eb B.
+# ======================================================================================================
+AG = "quimb/tensor/tnag/core.py"
+AGSUM = "tensor_network_ag_sum"
+
+
+def _compile_fn(root, rel, name):
+    with open(os.path.join(root, rel)) as f:
+        tree = ast.parse(f.read())
+    fn = [n for n in tree.body if isinstance(n, ast.FunctionDef) and n.name == name]
+    if not fn:
+        raise LookupError(f"{name} not found in {rel}")
+    code = compile(ast.Module(body=[fn[0]], type_ignores=[]), os.path.join("<real>", rel), "exec",
+                   flags=__future__.annotations.compiler_flag, dont_inherit=True)
+    return code
+
+
+def _run_ag_sum(code, ea, eb, n, negate, inplace, compress, sp):
+    """run the real function on two stand-in chains of n sites; -> (er, f, facts)"""
+    log = dict(products=[], compress=[], copies=0)
+    sites = [f"I{j}" for j in range(n)]
+
+    class T:
+        def __init__(self, data, inds, owner):
+            self.data, self.inds, self.owner = data, tuple(inds), owner
+
+        def reindex(self, m):
+            return T(self.data, [m.get(ix, ix) for ix in self.inds], self.owner)   # a NEW tensor: tnb itself stays untouched
+
+        def negate_(self):
+            self.data = -self.data
+
+        def modify(self, apply=None, **kw):
+            if apply is not None:
+                self.data = apply(self.data)
+
+        def direct_product_(self, other, sum_inds):
+            log["products"].append((self, other.data, tuple(sum_inds)))
+
+    class TN:
+        def __init__(self, nm, exponent, ts=None):
+            self.nm, self.exponent = nm, exponent
+            self.ts = ts or {s: T(sp.Symbol(f"{nm}_{s}", real=True, nonzero=True),
+                                  [f"{nm}b{j - 1}"] * (j > 0) + [f"k{j}"] + [f"{nm}b{j}"] * (j < n - 1), nm) for j, s in enumerate(sites)}
+
+        def copy(self):
+            log["copies"] += 1
+            return TN(self.nm, self.exponent, {s: T(t.data, t.inds, t.owner) for s, t in self.ts.items()})
+
+        def __getitem__(self, s):
+            return self.ts[s]
+
+        def compress(self, **kw):
+            log["compress"].append(kw)
+
+    def create_lazy_edge_map(tn, site_tags=None):
+        edges = {(sites[j], sites[j + 1]): (f"{tn.nm}b{j}",) for j in range(n - 1)}
+        nbrs = {s: [sites[i] for i in (j - 1, j + 1) if 0 <= i < n] for j, s in enumerate(sites)}
+        return edges, nbrs
+
+    ns = {"create_lazy_edge_map": create_lazy_edge_map}
+    exec(code, ns)  # noqa: S102 -- the real ast
+    a, b = TN("A", ea), TN("B", eb)
+    b_before = {s: t.data for s, t in b.ts.items()}
+    out = ns[AGSUM](a, b, negate=negate, compress=compress, inplace=inplace, max_bond=7)
+    facts = []
+    if (out is a) != bool(inplace):
+        facts.append(f"inplace={inplace}: result is{'' if out is a else ' not'} the first operand")
+    if not inplace and a.exponent is not ea:
+        facts.append("the first operand's exponent was changed although inplace=False")
+    if b.exponent is not eb or any(b.ts[s].data is not b_before[s] for s in sites):
+        facts.append("the second operand was modified")
+    if len(log["products"]) != n or {id(p[0]) for p in log["products"]} != {id(out.ts[s]) for s in sites}:
+        facts.append(f"{len(log['products'])} direct products for {n} sites (each site of the result exactly once)")
+    if (len(log["compress"]) == 1) != bool(compress) or (compress and log["compress"][0] != {"max_bond": 7}):
+        facts.append(f"compress={compress}: compress calls {log['compress']}")
+    f = sp.Integer(1)
+    for j, (_, data, _) in enumerate(log["products"]):
+        f = f * data / sp.Symbol(f"B_{sites[j]}", real=True, nonzero=True)
+    return out.exponent, f, facts
+
+
+def provider_sum(tier="quick", root=None):
+    import sympy as sp
+    root = root or repo_root()
+    fid = f"{AG}::{AGSUM}"
+    t0 = time.time()
+    try:
+        code = _compile_fn(root, AG, AGSUM)
+    except Exception as e:  # noqa
+        return [ObResult(f"{fid}::load", "e2", "unknown", "sympy", time.time() - t0, function=fid, engine="E2",
+                         detail=f"cannot load: {type(e).__name__}: {e}")]
+    ea, eb = sp.Symbol("ea", real=True), sp.Symbol("eb", real=True)
+    # exponent kinds: both symbolic (ALL real exponents), equal, one / both zero (int 0 and float 0.0 = 'no exponent'),
+    # and concrete floats (the native float path incl. the `rescale_b != 1.0` shortcut)
+    kinds = {"symbolic": [(ea, eb)], "equal": [(ea, ea)],
+             "zero": [(0.0, eb), (ea, 0.0), (0, eb), (ea, 0), (0.0, 0.0), (0, 0), (0.0, 0)],
+             "float": [(3.0, -2.0), (-2.0, 3.0), (0.5, 0.5), (1.0, 0.0), (0.0, 1.0)]}
+    obs = []
+    for negate in (False, True):
+        for kname, pairs in kinds.items():
+            t1 = time.time()
+            cex, status = None, "discharged"
+            try:
+                for (xa, xb) in pairs:
+                    for n in (1, 2, 3):
+                        for inplace in (False, True):
+                            for compress in (False, True):
+                                er, f, facts = _run_ag_sum(code, xa, xb, n, negate, inplace, compress, sp)
+                                sign = -1 if negate else 1
+                                # log domain: er == ea and log10(sign * f) == eb - ea
+                                d_er = sp.simplify(sp.sympify(er) - sp.sympify(xa))
+                                g = sp.sympify(sign * f)
+                                if g.free_symbols:
+                                    g = sp.nsimplify(g, rational=True)   # python float literals that are exact integers (10.0 -> 10)
+                                if g.is_negative or g.is_zero or (not g.free_symbols and not (g > 0)):
+                                    facts.append(f"factor on B: f = {f}: wrong sign (expected sign {'-' if negate else '+'}) or zero")
+                                    g = -g if g.is_negative or (not g.free_symbols and g < 0) else sp.Integer(1)
+                                lg = sp.simplify(sp.expand_log(sp.log(g, 10), force=True) - (sp.sympify(xb) - sp.sympify(xa)))
+                                if not lg.free_symbols and lg != 0:
+                                    # concrete floats (native float path): rounding of 10**x in double precision only
+                                    lg = sp.Integer(0) if abs(float(lg.evalf())) < 1e-9 else lg
+                                if d_er != 0:
+                                    facts.append(f"result exponent er = {er}, expected ea = {xa}")
+                                if lg != 0:
+                                    facts.append(f"factor on B: f = {f}; log10(sign*f) - (eb - ea) = {lg} (expected 0)")
+                                if facts:
+                                    cex = dict(ea=str(xa), eb=str(xb), sites=n, negate=negate, inplace=inplace, compress=compress, observed=facts[:3])
+                                    break
+                            if cex:
+                                break
+                        if cex:
+                            break
+                    if cex:
+                        break
+                if cex:
+                    status = "failed"
+            except Exception as e:  # noqa
+                status, cex = "unknown", dict(error=f"{type(e).__name__}: {e}")
+            obs.append(ObResult(f"{fid}::exponent-bookkeeping[{'sub' if negate else 'add'},{kname}]: er == ea and log10|f| == eb - ea, sign(f) = {'-' if negate else '+'}",
+                                "e2", status, "sympy", time.time() - t1, function=fid, model=cex if status == "failed" else None,
+                                detail=None if status != "unknown" else str(cex), engine="E2"))
+    return obs
